@@ -17,6 +17,8 @@
 
 #include "../include/nng/nng.h"
 
+#include "verif.h"
+
 // C compilers may get unhappy when named arguments are not used.  While
 // there are things like __attribute__((unused)) which are arguably
 // superior, support for such are not universal.
